@@ -242,7 +242,7 @@ def sentinel(w):
 
 def run(tier, seed):
     rep = Report("C08", tier, seed, "exploration")
-    n = 200 if tier == "quick" else 12000
+    n = 800 if tier == "quick" else 12000
     rep.rule = ("scenarios: 1-2 tables in several row-sets, 1-2 SQL writers (inserts with unique ids, deletes by id, drop table), "
                 "1-3 storage-level readers with random start delays / batch sizes / pauses, the engine's compactor and vacuum "
                 "driven by a clock actor; seeded perturbation at 11 hook points (thorough: also directed gates for ordered pairs "
